@@ -77,7 +77,25 @@ func bitEval(v ssa.Value, depth int) ([]bitPart, bool) {
 	case *ssa.Parameter:
 		return []bitPart{{x.Name(), ^uint64(0), 0}}, true
 	case *ssa.Convert:
-		return bitEval(x.X, depth+1)
+		ps, ok := bitEval(x.X, depth+1)
+		if !ok {
+			return nil, false
+		}
+		// a conversion to a narrower integer keeps the low bits only
+		if b, isB := x.Type().Underlying().(*types.Basic); isB && b.Info()&types.IsInteger != 0 {
+			w := types.SizesFor("gc", "amd64").Sizeof(b) * 8
+			if w < 64 {
+				var out []bitPart
+				for _, pp := range ps {
+					pp.srcMask &= unshift(uint64(1)<<uint(w)-1, pp.shift)
+					if pp.srcMask != 0 {
+						out = append(out, pp)
+					}
+				}
+				return out, true
+			}
+		}
+		return ps, true
 	case *ssa.ChangeType:
 		return bitEval(x.X, depth+1)
 	case *ssa.BinOp:
@@ -104,14 +122,20 @@ func bitEval(v ssa.Value, depth int) ([]bitPart, bool) {
 				if !ok {
 					return nil, false
 				}
-				for i := range ps {
+				var out []bitPart
+				for _, pp := range ps {
 					if x.Op == token.SHL {
-						ps[i].shift += k
+						pp.shift += k
 					} else {
-						ps[i].shift -= k
+						pp.shift -= k
+					}
+					// bits shifted out of the 64-bit word are gone
+					pp.srcMask &= unshift(^uint64(0), pp.shift)
+					if pp.srcMask != 0 {
+						out = append(out, pp)
 					}
 				}
-				return ps, true
+				return out, true
 			}
 		case token.OR:
 			a, ok1 := bitEval(x.X, depth+1)
@@ -299,6 +323,16 @@ func c19R3(p *Prog, r *Report) {
 		r.Unk("C19.R3", "LanceroSource.PrepareChannels", "-", "anchor not found")
 	} else {
 		r.Fn(FuncName(lp))
+		// the numbering may sit in PrepareChannels or in a helper method of the same source
+		top := lp
+		for _, h := range recvHelpers(lp, 2) {
+			if len(StoresToElems(h, "chanNumbers")) > 0 {
+				lp = h
+			}
+		}
+		if lp != top {
+			r.Fn(FuncName(lp))
+		}
 		// stores into chanNames / chanNumbers in program order
 		var names []nameStore
 		var nums []nameStore
@@ -420,6 +454,22 @@ func c19R3(p *Prog, r *Report) {
 		pc := NewPolyCtx(ap)
 		desc = pc.Of(numVal).String()
 		okA = strings.Contains(desc, "Firstchan") && len(pc.Of(numVal)) == 2
+		// the same quantity kept as a running counter: starts at the group's first channel
+		// before the row loop and advances by one per row
+		if phi, isPhi := numVal.(*ssa.Phi); isPhi && !okA && len(phi.Edges) == 2 {
+			for k, e := range phi.Edges {
+				init := pc.Of(e)
+				step, isStep := phi.Edges[1-k].(*ssa.BinOp)
+				if !isStep || step.Op != token.ADD || step.X != ssa.Value(phi) {
+					continue
+				}
+				one, isC := constInt(step.Y)
+				if isC && one == 1 && len(init) == 1 && strings.Contains(init.String(), "Firstchan") {
+					okA = true
+					desc = init.String() + " + (rows so far)"
+				}
+			}
+		}
 	}
 	r.Check(okA, "C19.R3", "Abaco: name and number of a stream come from the same value firstchan+row", p.Pos(ap.Pos()), desc, "the channel name and the channel number are not derived from one value first-channel + row")
 }
@@ -489,68 +539,80 @@ func isErrReturn(in ssa.Instruction) bool {
 func c19R4(p *Prog, r *Report) {
 	lp := p.Func("", "LanceroSource", "PrepareChannels")
 	if lp != nil {
-		// every error return dominates... i.e. precedes the first identity-table store: no table store can reach an error return
+		// no identity-table store can be followed by a rejection (stores and rejections may sit in
+		// PrepareChannels or in helper methods it calls; a helper's error is taken to be passed on)
 		tables := map[string]bool{"rowColCodes": true, "chanNames": true, "chanNumbers": true, "subframeOffsets": true, "groupKeysSorted": true}
-		var first ssa.Instruction
-		Instrs(lp, func(in ssa.Instruction) {
-			if st, ok := in.(*ssa.Store); ok && first == nil {
+		hosts := recvHelpers(lp, 2)
+		inHosts := map[*ssa.Function]bool{}
+		for _, h := range hosts {
+			inHosts[h] = true
+		}
+		var stores, rejections []DeepInstr
+		InstrsDeep(lp, 2, func(d DeepInstr) {
+			if !inHosts[d.In.Parent()] {
+				return
+			}
+			if st, ok := d.In.(*ssa.Store); ok {
 				if _, f, _, okf := FieldOf(st.Addr); okf && tables[f] {
-					first = in
+					stores = append(stores, d)
 				}
 			}
+			if isErrReturn(d.In) {
+				rejections = append(rejections, d)
+			}
 		})
-		nerr := 0
+		nerr := len(rejections)
 		bad := ""
-		Instrs(lp, func(in ssa.Instruction) {
-			if isErrReturn(in) {
-				nerr++
-				if first != nil && InstrReaches(first, in) {
-					bad = p.InstrPos(in)
+		for _, e := range rejections {
+			for _, st := range stores {
+				if DeepReaches(st, e) {
+					bad = p.InstrPos(e.In)
 				}
 			}
-		})
-		r.Check(first != nil && nerr >= 4 && bad == "", "C19.R4", "Lancero: every rejection precedes the first table store", p.Pos(lp.Pos()), fmt.Sprintf("%d rejections, none reachable after the first table store", nerr),
+		}
+		r.Check(len(stores) > 0 && nerr >= 4 && bad == "", "C19.R4", "Lancero: every rejection precedes the first table store", p.Pos(lp.Pos()), fmt.Sprintf("%d rejections, none reachable after the first table store", nerr),
 			"a rejection at "+bad+" can happen after identity tables were already (partly) rebuilt, or rejections are missing")
 		// the two separation loops test every active device unconditionally
-		loops := RangeLoops(lp)
 		n := 0
-		for _, l := range loops {
-			if _, f := l.OverField(); f != "active" {
-				continue
-			}
-			// a validation loop contains an error return
-			var errRet ssa.Instruction
-			Instrs(lp, func(in ssa.Instruction) {
-				if isErrReturn(in) && l.Contains(in.Block()) {
-					errRet = in
-				}
-			})
-			if errRet == nil {
-				continue
-			}
-			n++
-			// the comparison that leads to the rejection must be evaluated on every iteration and the loop
-			// must not be left early except through the rejection
-			var cmpBlock *ssa.BasicBlock
-			for _, c := range controllingIfs(errRet.Block()) {
-				if l.Contains(c.If.Block()) && c.If.Block() != l.Header {
-					cmpBlock = c.If.Block()
-				}
-			}
-			every := cmpBlock != nil && l.EveryIteration(cmpBlock)
-			early := false
-			for _, b := range lp.Blocks {
-				if b == l.Header || !l.Contains(b) {
+		for _, host := range hosts {
+			for _, l := range RangeLoops(host) {
+				if _, f := l.OverField(); f != "active" {
 					continue
 				}
-				for _, s := range b.Succs {
-					if !l.Contains(s) && len(s.Succs) > 0 {
-						early = true // leaves the loop to code that continues (break), not to a return
+				// a validation loop contains an error return
+				var errRet ssa.Instruction
+				Instrs(host, func(in ssa.Instruction) {
+					if isErrReturn(in) && l.Contains(in.Block()) {
+						errRet = in
+					}
+				})
+				if errRet == nil {
+					continue
+				}
+				n++
+				// the comparison that leads to the rejection must be evaluated on every iteration and the loop
+				// must not be left early except through the rejection
+				var cmpBlock *ssa.BasicBlock
+				for _, c := range controllingIfs(errRet.Block()) {
+					if l.Contains(c.If.Block()) && c.If.Block() != l.Header {
+						cmpBlock = c.If.Block()
 					}
 				}
+				every := cmpBlock != nil && l.EveryIteration(cmpBlock)
+				early := false
+				for _, b := range host.Blocks {
+					if b == l.Header || !l.Contains(b) {
+						continue
+					}
+					for _, s := range b.Succs {
+						if !l.Contains(s) && len(s.Succs) > 0 {
+							early = true // leaves the loop to code that continues (break), not to a return
+						}
+					}
+				}
+				r.Check(every && !early, "C19.R4", fmt.Sprintf("Lancero: separation check #%d tests every active card", n), p.InstrPos(errRet), "comparison on every iteration, no early exit",
+					fmt.Sprintf("the separation check is skipped for some cards (evaluated every iteration=%v, loop left early=%v): a colliding configuration is accepted", every, early))
 			}
-			r.Check(every && !early, "C19.R4", fmt.Sprintf("Lancero: separation check #%d tests every active card", n), p.InstrPos(errRet), "comparison on every iteration, no early exit",
-				fmt.Sprintf("the separation check is skipped for some cards (evaluated every iteration=%v, loop left early=%v): a colliding configuration is accepted", every, early))
 		}
 		if n < 2 {
 			r.Bad("C19.R4", "Lancero: both separation checks present", p.Pos(lp.Pos()), fmt.Sprintf("found %d validation loops over the active cards, want 2 (column and card separation)", n))
@@ -722,59 +784,79 @@ func c19R4(p *Prog, r *Report) {
 
 func c19R5(p *Prog, r *Report) {
 	for _, name := range []string{"LanceroSource", "AbacoSource", "RoachSource", "AnySource"} {
-		fn := p.Func("", name, "PrepareChannels")
-		if fn == nil {
+		top := p.Func("", name, "PrepareChannels")
+		if top == nil {
 			continue
 		}
-		r.Fn(FuncName(fn))
-		// fields appended to
-		appended := map[string]ssa.Instruction{}
-		Instrs(fn, func(in ssa.Instruction) {
-			call, ok := in.(*ssa.Call)
-			if !ok {
-				return
-			}
-			if b, ok := call.Call.Value.(*ssa.Builtin); !ok || b.Name() != "append" {
-				return
-			}
-			if _, f, _, okf := FieldOf(call.Call.Args[0]); okf {
-				if _, had := appended[f]; !had {
-					appended[f] = in
-				}
-			}
-		})
-		var fs []string
-		for f := range appended {
-			fs = append(fs, f)
-		}
-		sort.Strings(fs)
-		for _, f := range fs {
-			first := appended[f]
-			// a store of a fresh slice to the field on every path before the first append
-			isFresh := func(in ssa.Instruction) bool {
-				st, ok := in.(*ssa.Store)
+		r.Fn(FuncName(top))
+		for _, fn := range recvHelpers(top, 2) {
+			// fields appended to
+			appended := map[string]ssa.Instruction{}
+			Instrs(fn, func(in ssa.Instruction) {
+				call, ok := in.(*ssa.Call)
 				if !ok {
-					return false
+					return
 				}
-				if _, sf, _, okf := FieldOf(st.Addr); !okf || sf != f {
-					return false
+				if b, ok := call.Call.Value.(*ssa.Builtin); !ok || b.Name() != "append" {
+					return
 				}
-				switch v := st.Val.(type) {
-				case *ssa.MakeSlice:
-					n, isC := constInt(v.Len)
-					return isC && n == 0
-				case *ssa.Slice:
-					// make([]T, 0, n) with constant n lowers to a slice of a fresh array
-					_, isAlloc := v.X.(*ssa.Alloc)
-					return isAlloc
-				case *ssa.Const:
-					return v.Value == nil
+				if _, f, _, okf := FieldOf(call.Call.Args[0]); okf {
+					if _, had := appended[f]; !had {
+						appended[f] = in
+					}
 				}
-				return false
+			})
+			var fs []string
+			for f := range appended {
+				fs = append(fs, f)
 			}
-			miss := ReachAvoiding(fn, nil, isFresh, func(in ssa.Instruction) bool { return in == first })
-			r.Check(len(miss) == 0, "C19.R5", fmt.Sprintf("%s: table %s is re-made before it is appended to", FuncName(fn), f), p.InstrPos(first), "a fresh empty slice is stored on every path before the first append",
-				"the first append to this table can be reached without the table having been re-made in this call: entries of a previous (failed or self-terminated) run are kept and every channel/group is listed twice")
+			sort.Strings(fs)
+			for _, f := range fs {
+				first := appended[f]
+				// a store of a fresh slice to the field on every path before the first append
+				isFresh := func(in ssa.Instruction) bool {
+					st, ok := in.(*ssa.Store)
+					if !ok {
+						return false
+					}
+					if _, sf, _, okf := FieldOf(st.Addr); !okf || sf != f {
+						return false
+					}
+					switch v := st.Val.(type) {
+					case *ssa.MakeSlice:
+						n, isC := constInt(v.Len)
+						return isC && n == 0
+					case *ssa.Slice:
+						// make([]T, 0, n) with constant n lowers to a slice of a fresh array
+						_, isAlloc := v.X.(*ssa.Alloc)
+						return isAlloc
+					case *ssa.Const:
+						return v.Value == nil
+					}
+					return false
+				}
+				miss := ReachAvoiding(fn, nil, isFresh, func(in ssa.Instruction) bool { return in == first })
+				if len(miss) > 0 && fn != top {
+					// a helper: the table may be re-made by the caller before every call of the helper
+					okCallers := true
+					ncall := 0
+					InstrsDeep(top, 2, func(d DeepInstr) {
+						if c := CallOf(d.In); c != nil && c.StaticCallee() == fn {
+							ncall++
+							host := d.In.Parent()
+							at := d.In
+							if len(ReachAvoiding(host, nil, MustPass(isFresh, 2), func(in ssa.Instruction) bool { return in == at })) > 0 {
+								okCallers = false
+							}
+						}
+					})
+					if okCallers && ncall > 0 {
+						miss = nil
+					}
+				}
+				r.Check(len(miss) == 0, "C19.R5", fmt.Sprintf("%s: table %s is re-made before it is appended to", FuncName(fn), f), p.InstrPos(first), "a fresh empty slice is stored on every path before the first append",
+					"the first append to this table can be reached without the table having been re-made in this call: entries of a previous (failed or self-terminated) run are kept and every channel/group is listed twice")
+			}
 		}
 	}
 	_ = types.Typ
@@ -788,10 +870,13 @@ func c19R5(p *Prog, r *Report) {
 // packer's result for (row of the enclosing row loop, column, that loop's own bound, column
 // count) — also accepted in the hoisted form rcCode(0, col, rows, cols) | RowColCode(row).
 func c19More(p *Prog, r *Report) {
+	var hosts []*ssa.Function
 	for _, fn := range p.LibFuncs() {
-		if fn.Name() != "PrepareChannels" {
-			continue
+		if fn.Name() == "PrepareChannels" {
+			hosts = append(hosts, recvHelpers(fn, 2)...)
 		}
+	}
+	for _, fn := range hosts {
 		// --- Firstchan
 		Instrs(fn, func(in ssa.Instruction) {
 			st, ok := in.(*ssa.Store)
@@ -923,4 +1008,40 @@ func c19More(p *Prog, r *Report) {
 				bad+": with groups of different sizes the decoded row count is not the group's, channels can carry a row number beyond the stated rows, and these values go into file headers")
 		})
 	}
+}
+
+// recvHelpers: fn and the methods of the same receiver type it calls on its own receiver
+// (depth levels down): the places a method's work can be moved to without changing it.
+func recvHelpers(fn *ssa.Function, depth int) []*ssa.Function {
+	out := []*ssa.Function{fn}
+	if fn.Signature.Recv() == nil {
+		return out
+	}
+	seen := map[*ssa.Function]bool{fn: true}
+	InstrsDeep(fn, depth, func(d DeepInstr) {
+		f := d.In.Parent()
+		if seen[f] {
+			return
+		}
+		seen[f] = true
+		if f.Signature.Recv() != nil && types.Identical(f.Signature.Recv().Type(), fn.Signature.Recv().Type()) {
+			out = append(out, f)
+		}
+	})
+	return out
+}
+
+// StoresToElems: stores into elements of the slice held in the named field.
+func StoresToElems(fn *ssa.Function, field string) []*ssa.Store {
+	var out []*ssa.Store
+	Instrs(fn, func(in ssa.Instruction) {
+		if st, ok := in.(*ssa.Store); ok {
+			if ia, ok := st.Addr.(*ssa.IndexAddr); ok {
+				if _, f, _, okf := FieldOf(ia.X); okf && f == field {
+					out = append(out, st)
+				}
+			}
+		}
+	})
+	return out
 }
